@@ -104,6 +104,7 @@ let wfeval () =
        let pars = List.init npar (fun _ -> let p = str k in
                    match next k with
                    | "U" -> (p, PUp (nat_of_int (int k)))
+                   | "N" -> (p, PNone)
                    | _ -> let n = int k in (p, PVals (List.init n (fun _ -> str k)))) in
        let nout = int k in
        let outs = List.init nout (fun _ -> let p = str k in let pat = opt_str k in { op_name = p; op_pat = pat }) in
@@ -111,7 +112,7 @@ let wfeval () =
        let extra = List.init nextra (fun _ -> str k) in
        nodes := NProc { p_name = name; p_kind = kind; p_tok = tok; p_fail = fk; p_failkey = fkey; p_pattern = pattern;
                         p_ins = ins; p_pars = pars; p_outs = outs; p_extra = extra } :: !nodes
-     | "RUNTO" -> while more k do targets := nat_of_int (int k) :: !targets done
+     | "RUNTO" -> let _mode = next k in while more k do targets := nat_of_int (int k) :: !targets done
      | "FILE" -> let p = str k in let c = str k in files := (p, c) :: !files
      | _ -> ())
   done with End_of_file -> ());
